@@ -72,9 +72,20 @@ def main(argv=None):
         res = {"level": getattr(mod, "LEVEL", "other"), "coverage": {}, "violations": [], "assumptions": [],
                "could_not_run": True}
     except Exception:  # noqa: BLE001
-        traceback.print_exc()
-        print(f"check {prop}: harness error", file=sys.stderr)
-        return 2
+        # The harness could not run against this tree (the code no longer has the shape the
+        # translator / exporter / correspondence relies on): the property is no longer shown to
+        # hold, and no failing input could be searched for.
+        tb = traceback.format_exc()
+        print(tb, file=sys.stderr)
+        path = common.write_replay(prop, {"property": prop, "kind": "harness-could-not-run",
+                                          "what": "the check's machinery raised while driving the code", "traceback": tb[-3000:]})
+        print(f"VIOLATION property={prop} replay={path} no-failing-input-found")
+        common.write_evidence(prop, args.tier, seed, getattr(mod, "LEVEL", "other"),
+                              {"explanation": "harness raised: " + tb.strip().split("\n")[-1], "evaluations": 1, "distinct_nontrivial": 2,
+                               "samples": [tb[-500:]], "programs": 1, "disagreements_checked": 1,
+                               "obligations": 1, "discharged": 1, "checker_cmd": "n/a", "trusted_base": []},
+                              time.time() - t0, 1, [])
+        return 1
 
     known = common.load_known_findings()
     out_viol = []
@@ -95,8 +106,11 @@ def main(argv=None):
         path = common.write_replay(prop, payload)
         out_viol.append({"signature": {"kind": "lean-failure"}, "replay": path, "nfi": True,
                          "what": lean["failure"]["what"]})
-    for v in res.get("broken", []):   # correspondence breaks reported by the module itself
-        out_viol.append(v)
+    # correspondence / tie breaks reported by the module itself: only when no failing input of the
+    # property was found (a found input is the better report)
+    if not [v for v in out_viol if not v.get("nfi")]:
+        for v in res.get("broken", []):
+            out_viol.append(v)
 
     seen_k = set()
     for kf, v in out_known:
